@@ -241,6 +241,9 @@ C17_PAIRS = [
     ('V + W', 'Plus(V, W)', 3), ('map(Xs, {# + V})', 'map(Xs, {Plus(#, V)})', 3), ('A + B', 'A + B', 3),
     ('V + W - V', 'SubVec(AddVec(V, W), V)', 4), ('V - W == W + V', 'EqVec(SubVec(V, W), AddVec(W, V))', 4), ('A - B == A + B', 'A - B == A + B', 4), ('V == W', 'EqVec(V, W)', 4),
     ('V + W', 'AddVec(V, W)', 5), ('V + A', 'AddMixed(V, A)', 5),
+    ('V + W', 'Plus(V, W)', 6), ('V + A', 'AddMixed(V, A)', 7), ('V + W', 'Plus(V, W)', 7),
+    ('Pv == nil', 'Pv == nil', 4), ('nil == Pv', 'nil == Pv', 4), ('Pv == nil', 'Pv == nil', 8), ('Pv == Pv', 'EqPv(Pv, Pv)', 8), ('V == nil', 'V == nil', 4),
+    ('Dyn[(V + W).X]', 'Dyn[AddVec(V, W).X]', 0), ('Dyn[A + B]', 'Dyn[A + B]', 0), ('Dyn[(V + A).X]', 'Dyn[AddMixed(V, A).X]', 1),
 ]
 
 
